@@ -66,6 +66,19 @@ def gen_hierarchy(r, prefix, shape=None):
         else:
             h.ents[0]["expr"] = (outer, [(inner, [("L", x) for x in subs[:2]])] + [("L", x) for x in subs[2:]])
         return h
+    if shape == "chainroots":
+        # three roots and two subtypes with two supertypes each, the middle root shared: s01 < (r0, r1), s12 < (r1, r2)
+        for i in range(3):
+            h.ents.append({"name": nm(i), "supers": [], "abstract": False, "expr": None})
+        h.ents.append({"name": nm(3), "supers": [nm(0), nm(1)], "abstract": False, "expr": None})
+        h.ents.append({"name": nm(4), "supers": [nm(1), nm(2)], "abstract": False, "expr": None})
+        if r.random() < 0.5:
+            h.ents.append({"name": nm(5), "supers": [nm(r.choice([3, 4]))], "abstract": False, "expr": None})
+        for e in h.ents:
+            s_ = h.subs(e["name"])
+            if s_ and r.random() < 0.5:
+                e["expr"] = gen_expr(r, s_)
+        return h
     if shape == "tree":
         for i in range(n):
             h.ents.append({"name": nm(i), "supers": [] if i == 0 else [nm(r.randrange(0, i))], "abstract": False, "expr": None})
@@ -235,6 +248,8 @@ def main(tier, seed):
         for j in range(per_schema):
             shape = ["tree", "diamond", "tworoots"][j % 3] if j < 6 else None
             hs.append(gen_hierarchy(r, "h%d_" % j, shape))
+        hs.append(gen_hierarchy(r, "c0_", "chainroots"))
+        hs.append(gen_hierarchy(r, "c1_", "chainroots"))
         # every operator directly inside every operator, on either side
         for j2, (outer, inner) in enumerate(itertools.product("OAR", repeat=2)):
             hs.append(gen_hierarchy(r, "f%d_" % j2, "flat:%s:%s:%s" % (outer, inner, ["right", "left"][(j2 + k) % 2])))
@@ -300,7 +315,13 @@ def main(tier, seed):
                         " ".join(q[1]), realb, "legal" if want else "illegal", (" (%s)" % why) if why else ""),
                         {"input_file": save("c08-%d-%d-h%d.exp" % (seed, k, hi), hier_text), "set": list(q[1])},
                         signature=("missing_second_supertype_accepted" if realb and why and any(len(h.ent(n)["supers"]) > 1 for n in q[1]) else None))
-                if mm[0] != ("1" if realb else "0"):
+                known_gap = (realb != want and realb and any(len(h.ent(n)["supers"]) > 1 for n in q[1]) and mm[0] == ("1" if want else "0"))
+                if known_gap:
+                    # the open finding missing_second_supertype_accepted: the matcher accepts the set, the rule and the model refuse it.
+                    # Complex.v follows the matcher for a member with two supertypes inside one hierarchy (c08_supports_iff_legal_refuted);
+                    # across several roots it says what the rule says, and is not asked to reproduce the matcher's answer
+                    hist["model_sides_with_rule_on_known_finding"] = hist.get("model_sides_with_rule_on_known_finding", 0) + 1
+                elif mm[0] != ("1" if realb else "0"):
                     disagreements += 1
                     if disagreements <= 5:
                         res.violation("model Complex.v supports = %s, runtime supports = %s on {%s}" % (mm[0], realb, " ".join(q[1])),
@@ -374,7 +395,7 @@ def main(tier, seed):
         "distinct_nontrivial": nontrivial,
         "rule": "%d schemas x %d hierarchies of 2-6 entities (trees, diamonds, two roots sharing a subtype; random nestings of ONEOF/AND/ANDOR "
                 "over a random part of the direct subtypes, the rest implicit; ABSTRACT with probability 0.3) + 9 flat hierarchies (one supertype over 3-4 "
-                "subtypes) with every operator nested directly inside every operator; ALL non-empty subsets of every "
+                "subtypes) with every operator nested directly inside every operator + 2 with three roots and two subtypes of two supertypes each; ALL non-empty subsets of every "
                 "hierarchy + cross-hierarchy pairs through ComplexCollect::supports() (single entities through the STEPcomplex constructor), one child process per query; non-trivial = hierarchy "
                 "with both legal and illegal subsets" % (nschemas, per_schema),
         "exhaustive": True,
